@@ -34,7 +34,7 @@ func (c03) Meta() fw.Meta {
 		Assumptions: []string{
 			"clock domain: maxRetention + 2*maxStep <= now and now + 2*maxStep < 2^32",
 			"'supplied last' = greatest (timestamp, supply index) among the points of one slot (batches are time-ordered first; DESIGN.md section 1.5)",
-			"future-dated points in batches are outside the property's quantifier and are not generated",
+			"points stamped after the clock: every 5th case adds batch points up to 4 s ahead (2*maxStep-1 at most, to stay inside the clock domain); being younger than every retention they are stored, in the finest (or the named) archive",
 		},
 		Obligations: []string{"single_accept_at_boundary", "single_reject_at_boundary", "single_reject_future", "batch_one_stale_plus_fresh", "batch_only_old", "batch_equal_timestamp_dups", "batch_multi_ts_same_slot", "batch_lap_collision", "batch_dropped_points", "batch_stored_points", "permutation_twins_compared", "best_routed_to_coarser", "empty_batch", "wrapper_update_calls", "wrapper_updatemany_calls", "batch_ancient_points", "batch_nan_valued_points_stored", "identical_update_resent_after_clock_advance", "files_replaced_by_another_layout"},
 	}
@@ -309,9 +309,9 @@ func (c03) Run(c *fw.Ctx) {
 		case 4: // empty
 			c.Count("empty_batch", 1)
 		default:
-			op := genOp(r, l, s.now, histOpts{tooOld: true, maxBatch: 200})
+			op := genOp(r, l, s.now, histOpts{tooOld: true, maxBatch: 200, futureBatch: c.Index%5 == 1})
 			for op.Kind != "batch" {
-				op = genOp(r, l, s.now, histOpts{tooOld: true, maxBatch: 200})
+				op = genOp(r, l, s.now, histOpts{tooOld: true, maxBatch: 200, futureBatch: c.Index%5 == 1})
 			}
 			named = op.Arch
 			pts = op.Pts
